@@ -84,3 +84,294 @@ class L2:
             obs.append(chk.add(Ob("%s: %s" % (label, what), "unsat" if r1 == r2 == "unsat" else "sat", time.time() - tq, [fname], "LIA")))
         self.grp.pre = []
         return obs
+
+
+# ---------------------------------------------------------------------------
+# recoder / selector contracts (discharged from the real SSA)
+# ---------------------------------------------------------------------------
+def r16_contract(base, chk):
+    """signedRadix16: sum d_i*16^i = k, -8 <= d_i <= 8, no int8 overflow, panic branch infeasible (k < l)"""
+    from . import kernels as K
+    prog = base.prog
+    fname = prog.find("Scalar).signedRadix16")
+    k = K.LFK(base, chk, fname)
+    dom, ex = k.dom, k.ex
+    kv = dom.input("k", 0, L - 1)
+    bs = [dom.input("b[%d]" % i, 0, 255) for i in range(32)]
+    k.inputs["b"] = bs
+
+    def bytes_summary(ex_, path, args):
+        oid = ex_.new_obj(path, ("array", 32, prog.T("uint8")), name="Scalar.Bytes()", init=list(bs), kind="heap")
+        return X.SliceV(oid, (), 0, 32, 32)
+    ex.summaries[prog.find("Scalar).Bytes")] = bytes_summary
+    k.path.pc.append(LFCond("==", K.bval(bs) - kv))   # contract of Scalar.Bytes (C08): little-endian canonical value < l
+    s = X.Ptr(ex.new_obj(k.path, prog.T(E + "Scalar"), name="s"))
+    paths = ex.call(fname, [s], k.path)
+    good = [p for p in paths if p.outcome[0] == "ret"]
+    bad = [p for p in paths if p.outcome[0] != "ret"]
+    chk.add(Ob("signedRadix16: the 'high bit set' panic is infeasible for k < l; single returning path", "unsat" if len(good) == 1 and not bad else "sat", 0, [fname], "Int-LF", detail=str([p.outcome for p in bad][:2])))
+    if not good:
+        return
+    p = good[0]
+    ds = p.outcome[1][0]
+    tot = LF()
+    for i, d in enumerate(ds):
+        tot = tot + LF.of(d).scale(16 ** i)
+    k.goal(p, "eq", "sum d_i*16^i = k", tot, kv)
+    for i, d in enumerate(ds):
+        k.goal(p, "le", "d_%d <= 8" % i, d, 8)
+        k.goal(p, "le", "d_%d >= %d" % (i, -8 if i < 63 else 0), -8 if i < 63 else 0, d)
+
+    def replay(models, seed):
+        from . import native, ptreplay
+        import random
+        rng = random.Random(seed)
+        ks = [0, 1, 8, 15, 16, 2**252, L - 1, L - 2, 0x8888888888888888888888888888888888888888888888888888888888888888 % L, 0x7777777777777777777777777777777777777777777777777777777777777777 % L] + [rng.randrange(L) for _ in range(40)]
+        res = native.run_ops("", [{"op": "S.signedRadix16", "args": ["s"], "init": {"s": ptreplay.scalar_words(x)}} for x in ks])
+        for x, r in zip(ks, res):
+            if "panic" in r:
+                return dict(what="signedRadix16(%d) panics: %s" % (x, r["panic"]), op="signedRadix16", inputs=dict(k=str(x)))
+            d = r["digits"]
+            if sum(v * 16 ** i for i, v in enumerate(d)) != x or any(not -8 <= v <= 8 for v in d):
+                return dict(what="signedRadix16(%d) digits %s" % (x, d), op="signedRadix16", inputs=dict(k=str(x)))
+        return None
+    k.replay = replay
+    k.settle("signedRadix16")
+
+
+def tsel_ct_contract(base, chk, tname):
+    """(projLookupTable|affineLookupTable).SelectInto: dest = x*Q for every -8 <= x <= 8 (symbolic x, forks on the
+    masked selections pruned by the solver), on a table holding (j+1)*Q"""
+    from . import kernels as K, dom_bv
+    import z3
+    prog = base.prog
+    fname = prog.find(tname + ").SelectInto")
+    k = K.BVK(base, chk, fname, label=tname + ".SelectInto")
+    chk.used(prog, "crypto/subtle.ConstantTimeByteEq", "BV (standard library SSA)")
+    grp = GM.Group(k.ex, k.dom)
+    cached = "projCached" if tname == "projLookupTable" else "affineCached"
+    path = k.path
+    tab = k.ex.new_obj(path, prog.T(E + tname), name="table", init=[[GM.vec({"Q": j + 1}) for j in range(8)]])
+    dest = k.ex.new_obj(path, prog.T(E + cached), name="dest", init=GM.vec({"JUNK": 1}))
+    x = k.bv("x", 8)
+    path.pc.append(z3.And(x >= -8, x <= 8))
+    paths = k.ex.call(fname, [X.Ptr(tab), X.Ptr(dest), x], path)
+    bad = [p for p in paths if p.outcome[0] != "ret"]
+    chk.add(Ob("%s.SelectInto: no panic for -8 <= x <= 8 (%d paths)" % (tname, len(paths)), "unsat" if not bad else "sat", 0, [fname], "BV + group mode"))
+    for i, p in enumerate(p for p in paths if p.outcome[0] == "ret"):
+        g = p.heap[dest][0]
+        if not isinstance(g, GM.G) or g.kind != "vec" or set(g.v) - {"Q"}:
+            chk.add(Ob("%s.SelectInto [path %d]: dest is a multiple of Q" % (tname, i), "sat", 0, [fname], "group mode", detail=repr(g)))
+            continue
+        c = g.v.get("Q", 0)
+        k.prove(p, "[path %d] dest = x*Q (selected multiple %s equals the digit on this path)" % (i, c), z3.SignExt(56, x) == z3.BitVecVal(c, 64))
+        k.prove(p, "[path %d] table not written" % i, not any(w[0] == "w" and w[1] == tab for w in p.log))
+    k.settle()
+
+
+def tsel_naf_contract(base, chk, tname, n):
+    """naf tables: for odd x in 1..2n-1, dest = points[x/2] = x*Q; index in bounds"""
+    from . import kernels as K
+    import z3
+    prog = base.prog
+    fname = prog.find(tname + ").SelectInto")
+    k = K.BVK(base, chk, fname, label=tname + ".SelectInto")
+    cached = "projCached" if n == 8 else "affineCached"
+    path = k.path
+
+    def ite(self, path_, c, a, b):
+        if a.kind == "vec" and b.kind == "vec":
+            keys = set(a.v) | set(b.v)
+            it = prog.T("int")
+            return GM.G("vec", {g: k.dom.ite(path_, c, a.v.get(g, 0), b.v.get(g, 0), it) for g in keys})
+        raise X.ExecError("ite on non-vector group values")
+    GM.G.opaque_ite = ite
+    for t in GM.TYPES:
+        k.ex.opaque[E + t] = GM.UNINIT
+    tab = k.ex.new_obj(path, prog.T(E + tname), name="table", init=[[GM.vec({"Q": 2 * j + 1}) for j in range(n)]])
+    dest = k.ex.new_obj(path, prog.T(E + cached), name="dest", init=GM.vec({"JUNK": 1}))
+    x = k.bv("x", 8)
+    path.pc.append(z3.And(x >= 1, x <= 2 * n - 1, z3.Extract(0, 0, x) == 1))
+    paths = k.ex.call(fname, [X.Ptr(tab), X.Ptr(dest), x], path)
+    bad = [p for p in paths if p.outcome[0] != "ret"]
+    chk.add(Ob("%s.SelectInto: index x/2 in bounds for odd 1 <= x <= %d (%d path(s))" % (tname, 2 * n - 1, len(paths)), "unsat" if not bad else "sat", 0, [fname], "BV + group mode", detail=str([p.outcome for p in bad][:2])))
+    for i, p in enumerate(p for p in paths if p.outcome[0] == "ret"):
+        g = p.heap[dest][0]
+        c = g.v.get("Q", 0) if isinstance(g, GM.G) and g.kind == "vec" else None
+        if c is None or set(g.v) - {"Q"}:
+            chk.add(Ob("%s.SelectInto: dest is a multiple of Q" % tname, "sat", 0, [fname], "group mode", detail=repr(g)[:200]))
+            continue
+        cz = c if not type(c) is int else z3.BitVecVal(c, 64)
+        k.prove(p, "dest = x*Q for every odd digit in range (table entry x/2 holds (2*(x/2)+1)*Q)", z3.SignExt(56, x) == cz)
+    k.settle()
+
+
+def naf_contract(base, chk, w, positions=None):
+    """nonAdjacentForm(w): one inductive step of the recoding loop from an arbitrary state satisfying the
+    invariant  S + carry*2^pos = k mod 2^pos,  carry in {0,1},  carry=1 => bit_{pos-1}(k)=1   (S = sum naf[i]*2^i, ghost),
+    for every pos in 0..255; on exit S = k.  Digits written are odd, |d| < 2^(w-1), only naf[pos] is written."""
+    from . import kernels as K
+    import z3
+    prog = base.prog
+    fname = prog.find("Scalar).nonAdjacentForm")
+    k = K.BVK(base, chk, fname, label="nonAdjacentForm(%d)" % w)
+    ex = k.ex
+    bs = [k.bv("b[%d]" % i, 8) for i in range(32)]
+
+    def bytes_summary(ex_, path, args):
+        oid = ex_.new_obj(path, ("array", 32, prog.T("uint8")), name="Scalar.Bytes()", init=list(bs), kind="heap")
+        return X.SliceV(oid, (), 0, 32, 32)
+    ex.summaries[prog.find("Scalar).Bytes")] = bytes_summary
+    kval = K.cat_bytes(bs)                       # 256-bit
+    k.path.pc.append(z3.ULT(kval, z3.BitVecVal(L, 256)))
+    s = X.Ptr(ex.new_obj(k.path, prog.T(E + "Scalar"), name="s"))
+    # find the loop header: the block with phis named pos / carry
+    fn = prog.fn(fname)
+    header = None
+    for b in fn["blocks"]:
+        names = [i.get("comment") for i in b["instrs"] if i["op"] == "Phi"]
+        if "pos" in names and "carry" in names:
+            header = b["index"]
+            phis = {i["comment"]: i["name"] for i in b["instrs"] if i["op"] == "Phi"}
+    if header is None:
+        chk.note_inconclusive("nonAdjacentForm: loop header with phis pos/carry not found")
+        return
+    ex.stop_blocks.add((fname, header))
+    t0 = time.time()
+    start = ex.explore(ex.start(fname, [s, w], k.path))
+    first = [p for p in start if p.outcome == ("stop", header)]
+    others = [p for p in start if p.outcome != ("stop", header)]
+    chk.add(Ob("nonAdjacentForm(%d): prologue reaches the loop once; its panics are infeasible for k < l and w=%d" % (w, w), "unsat" if len(first) == 1 and not others else "sat", 0, [fname], "BV", detail=str([p.outcome for p in others][:2])))
+    if len(first) != 1:
+        return
+    p0 = first[0]
+    fr0 = p0.frames[0]
+    # locate naf / digits allocations
+    nafp = digp = None
+    for name, v in fr0.env.items():
+        if isinstance(v, X.Ptr):
+            m = ex.meta[v.obj]
+            if m.name == "naf":
+                nafp = v
+            if m.name == "digits":
+                digp = v
+    if nafp is None or digp is None:
+        chk.note_inconclusive("nonAdjacentForm: naf/digits allocations not found")
+        return
+    dig = p0.heap[digp.obj][0]
+    # base case: pos=0, carry=0, naf all zero, digits = words of k, digits[4] = 0
+    k.prove(p0, "base: pos=0, carry=0, naf all zero", fr0.env[phis["pos"]] == 0 and fr0.env[phis["carry"]] == 0 and all(type(x) is int and x == 0 for x in p0.heap[nafp.obj][0]))
+    k.prove(p0, "base: digits[0..3] = 64-bit words of k, digits[4] = 0",
+            z3.And([ (dig[i] if not type(dig[i]) is int else z3.BitVecVal(dig[i], 64)) == z3.Extract(64 * i + 63, 64 * i, kval) for i in range(4)] + [z3.BoolVal(type(dig[4]) is int and dig[4] == 0)]))
+    WB = 330
+    kw = z3.ZeroExt(WB - 256, kval)
+    S = z3.BitVec("S", WB)
+    carry = z3.BitVec("carry", 64)
+    nbad = 0
+    nq = 0
+    poss = positions if positions is not None else range(256)
+    tq = time.time()
+    for pos in poss:
+        p = p0.clone()
+        p.outcome = None
+        fr = p.frames[0]
+        fr.env[phis["pos"]] = pos
+        fr.env[phis["carry"]] = carry
+        # naf memory: entries below pos arbitrary (ghost-summed in S), entries >= pos are zero
+        nafc = [z3.BitVec("naf[%d]" % i, 8) if i < pos else 0 for i in range(256)]
+        p.heap[nafp.obj] = [list(nafc)]
+        mask = (1 << pos) - 1
+        inv = z3.And(z3.Or(carry == 0, carry == 1),
+                     ((S + (z3.ZeroExt(WB - 64, carry) << pos)) & z3.BitVecVal(mask, WB)) == (kw & z3.BitVecVal(mask, WB)) if pos > 0 else carry == 0,
+                     (S + (z3.ZeroExt(WB - 64, carry) << pos)) == (kw & z3.BitVecVal(mask, WB)),
+                     z3.Or(carry == 0, z3.Extract(pos - 1, pos - 1, kw) == 1) if pos > 0 else carry == 0)
+        p.pc.append(inv)
+        p.log = []
+        outs = ex.explore(p)
+        for q in outs:
+            nq += 1
+            if q.outcome[0] == "stop":
+                fq = q.frames[0]
+                npos, ncarry = fq.env[phis["pos"]], fq.env[phis["carry"]]
+            elif q.outcome[0] == "ret":
+                npos, ncarry = None, None
+            else:
+                # panic path: must be infeasible
+                if k.dom.check(q.pc) != z3.unsat:
+                    nbad += 1
+                    chk.add(Ob("nonAdjacentForm(%d) pos=%d: abnormal outcome %s feasible" % (w, pos, q.outcome), "sat", 0, [fname], "BV"))
+                continue
+            writes = [wr for wr in q.log if wr[0] == "w" and wr[1] == nafp.obj]
+            digit = None
+            if writes:
+                if len(writes) != 1 or writes[0][2] != (pos,):
+                    nbad += 1
+                    chk.add(Ob("nonAdjacentForm(%d) pos=%d: writes %s (only naf[pos] may be written)" % (w, pos, writes[:3]), "sat", 0, [fname], "effects"))
+                    continue
+                digit = q.heap[nafp.obj][0][pos]
+            dterm = z3.BitVecVal(0, WB) if digit is None else z3.SignExt(WB - 8, digit if not type(digit) is int else z3.BitVecVal(digit, 8))
+            S2 = S + (dterm << pos)
+            goals = []
+            if digit is not None:
+                dg = digit if not type(digit) is int else z3.BitVecVal(digit, 8)
+                goals.append(z3.Extract(0, 0, dg) == 1)
+                dg16 = z3.SignExt(8, dg)
+                goals.append(z3.And(dg16 > -(1 << (w - 1)), dg16 < (1 << (w - 1))))
+            if q.outcome[0] == "stop":
+                if type(npos) is not int or not (pos < npos <= pos + w):
+                    nbad += 1
+                    chk.add(Ob("nonAdjacentForm(%d) pos=%d: next pos %r" % (w, pos, npos), "sat", 0, [fname], "BV"))
+                    continue
+                nm = (1 << npos) - 1
+                nc = ncarry if not type(ncarry) is int else z3.BitVecVal(ncarry, 64)
+                goals.append(z3.Or(nc == 0, nc == 1))
+                goals.append((S2 + (z3.ZeroExt(WB - 64, nc) << npos)) == (kw & z3.BitVecVal(nm, WB)))
+                goals.append(z3.Or(nc == 0, z3.Extract(npos - 1, npos - 1, kw) == 1))
+                if npos < 256:
+                    pass
+                else:
+                    # loop will exit at the header test; final sum must be k
+                    goals.append(S2 == kw)
+            else:
+                goals.append(S2 == kw)
+            so = z3.Solver()
+            so.set("timeout", 60000)
+            for c in q.pc:
+                so.add(c)
+            so.add(z3.Not(z3.And(goals)))
+            r = so.check()
+            if r != z3.unsat:
+                nbad += 1
+                det = ""
+                if r == z3.sat:
+                    m = so.model()
+                    det = "carry=%s S=%s k=%s next=(%s,%s) digit=%s failing=%s" % (m.eval(carry), m.eval(S), m.eval(kval), npos, m.eval(ncarry) if ncarry is not None and not type(ncarry) is int else ncarry,
+                                                                            m.eval(digit) if digit is not None and not type(digit) is int else digit, [i for i, g in enumerate(goals) if z3.is_false(m.eval(g, model_completion=True))])
+                chk.add(Ob("nonAdjacentForm(%d) pos=%d: invariant step / digit range" % (w, pos), str(r), 0, [fname], "BV", detail=det))
+    chk.add(Ob("nonAdjacentForm(%d): inductive step of the recoding invariant for every pos in %s (%d one-step paths): sum naf[i]*2^i = k at exit, digits odd with |d| < 2^%d, only naf[pos] written" % (
+        w, "0..255" if positions is None else str(list(poss)[:4]) + "...", nq, w - 1), "unsat" if nbad == 0 else "sat-see-above", time.time() - tq, [fname], "BV (loop-head hook, 330-bit ghost sum)"))
+
+    def replay(models, seed):
+        from . import native, ptreplay
+        import random
+        rng = random.Random(seed)
+        ks = [0, 1, 15, 16, 17, 2**252, L - 1, L - 2, (2**253 - 1) % L, 0x5555555555555555555555555555555555555555555555555555555555555555 % L] + [rng.randrange(L) for _ in range(30)]
+        res = native.run_ops("", [{"op": "S.nonAdjacentForm", "args": ["s", str(w)], "init": {"s": ptreplay.scalar_words(x)}} for x in ks])
+        for x, r in zip(ks, res):
+            if "panic" in r:
+                return dict(what="nonAdjacentForm(%d) of %d panics: %s" % (w, x, r["panic"]), op="nonAdjacentForm", inputs=dict(k=str(x), w=w))
+            d = r["digits"]
+            if sum(v << i for i, v in enumerate(d)) != x or any(v != 0 and (v % 2 == 0 or abs(v) >= 1 << (w - 1)) for v in d):
+                return dict(what="nonAdjacentForm(%d) of %d: digits %s" % (w, x, d), op="nonAdjacentForm", inputs=dict(k=str(x), w=w))
+        return None
+    bad_obs = [o for o in chk.obs if o.name.startswith("nonAdjacentForm(%d)" % w) and not o.ok()]
+    if bad_obs:
+        hit = None
+        try:
+            hit = replay([], chk.seed)
+        except Exception as e:
+            chk.note_inconclusive("replay nonAdjacentForm failed: %r" % (e,))
+        for o in bad_obs:
+            o.verdict = "violated" if hit else "sat-unreplayed"
+        if hit:
+            chk.violation("nonAdjacentForm", hit["what"], hit)
